@@ -194,6 +194,14 @@ INSTANCES['T-prc']['sibling_exempt'] = {
     ('samlang_printer::source_printer::create_chainable_ir_docs', ('samlang_ast::source::expr::FieldAccess', 'FieldAccess', 'common')): _CHAIN,
     ('samlang_printer::source_printer::create_chainable_ir_docs', ('samlang_ast::source::expr::MethodAccess', 'MethodAccess', 'common')): _CHAIN}
 
+# PEEK-THEN-VISIT exemptions: (function, slot) -> reason
+PEEK_EXEMPT = {
+    'T-inlining': {('samlang_optimization::inlining::perform_inline_rewrite_on_function_stmt', 'callee'):
+                   'this function replaces calls of inlinable functions and recurses into nested statement lists; every other '
+                   'statement (and so every other callee) is kept verbatim by design - `_ => vec![stmt]`'}}
+# instances whose family has no visitor for a child type, or where peeking is about comments only
+PEEK_SKIP = {'T-prc', 'T-gc'}
+
 STATEMENT_WALKERS = {k for k, c in INSTANCES.items() if c['roots'][0].endswith('::Statement')}
 
 
@@ -207,5 +215,8 @@ def make(ids):
             if i in STATEMENT_WALKERS:
                 out.append(run_dispatch(prog, INSTANCES[i]))
             out.append(run_sibling(prog, INSTANCES[i]))
+            if i not in PEEK_SKIP:
+                from .delegate import run_instance as run_peek
+                out.append(run_peek(prog, INSTANCES[i], PEEK_EXEMPT.get(i)))
         return out
     return runner
